@@ -116,6 +116,9 @@ func classify(p string) string {
 		return mustAccept
 	}
 	f := strings.Split(rest, "_")
+	if len(f) == 2 && !strings.HasPrefix(rest, "REMOTE") {
+		return mustReject // FS_<x>_<y>: neither the plain nor the address-qualified shape
+	}
 	if len(f) > 3 && net.ParseIP(f[0]) != nil {
 		return mustReject // an address-qualified name followed by further fields is not one of the recognised shapes
 	}
@@ -356,6 +359,8 @@ func leafs() []string {
 		"FS_" + s + " ", " FS_" + s, "FS_" + strings.Repeat("a", 4090), "..", ".", s, "FS_" + s + "_", "FS__" + s, "FS_127.0.0.1_9618_", "FS_127.0.0.1__" + s,
 		"FS_2001:db8::5_9618_" + s, "FS_::2_9618_" + s, "FS_fe80::1_9618_" + s, "FS_0:0:0:0:0:0:0:1_9618_" + s, "FS_2001:db8::7_9618_" + s, "FS_2001:db8::7_9619_" + s,
 		"FS_10.1.2.3_9618_" + s, "FS_10.1.2.4_9618_" + s, "FS_::ffff:10.1.2.3_9618_" + s, "FS_REMOTE_2001:db8::5_9618_" + s,
+		// near misses of the plain shape: characters just outside [A-Za-z0-9]
+		"FS_" + s + "^x", "FS_[" + s + "]", "FS_a\\" + s, "FS_a`" + s, "FS_" + s + "_b", "FS_" + s + "@", "FS_" + s + "~", "FS_" + s + "{", "FS_" + s + "/",
 		// the live endpoint, a valid suffix, and then more
 		"FS_" + peerIP + "_" + peerPort + "_" + s + "_x", "FS_" + peerIP + "_" + peerPort + "_" + s + "_..", "FS_" + peerIP + "_" + peerPort + "_" + s + "_a b",
 		"FS_" + peerIP + "_" + peerPort + "_" + s + "_\x01", "FS_" + peerIP + "_" + peerPort + "_" + s + "_", "FS_" + peerIP + "_" + peerPort + "_" + s + "_" + strings.Repeat("z", 300),
